@@ -5,13 +5,15 @@ from . import c11
 
 PROP_ID = "C12"
 FEATURE = "c12"
-ENGINE = "E1 kani-cbmc"
+ENGINE = "E1 kani-cbmc + E2 mir-smt"
 FUNCTIONS = c11.FUNCTIONS[:1] + c11.FUNCTIONS[3:5] + ["term.rs term_type_order + numeric helpers",
                                                      "reference: harness/src/terms.rs erl_cmp (written from the OTP reference manual)"]
 ASSUMPTIONS = c11.ASSUMPTIONS + [
     "order between two different identifiers / funs is not prescribed by the statement: only Equal <=> same fields is asserted",
 ]
-OUTSIDE = c11.OUTSIDE + ["float x big-integer pairs in the quick tier (8 chained f64 multiply-adds; thorough tier only)"]
+OUTSIDE = c11.OUTSIDE + ["float x big-integer pairs in the quick tier (8 chained f64 multiply-adds; thorough tier only)",
+                         "E2 part: tuples / lists of up to 3 (thorough 4) *integers* only (no nesting, no other element types); the BorrowedTerm copy of cmp "
+                         "is compared natively in the replay only"]
 
 
 def bounds(tier):
@@ -51,3 +53,18 @@ def generate(tier, seed):
                              "against one representative of every other rank: %s" % (a, bs),
                           unwind=c11.UNW, unwindset=c11.UWS, recursion=c11.rec_for([a] + bs), cap_s=c11.CAP, cuts=c11.cuts_for([a] + bs), typed_heap=c11.has_container([a] + bs)))
     return "\n".join(src), hs
+
+
+def extra_checks(tier, seed):
+    from . import c12_seq
+    out = []
+    c12_seq.run(tier, out)
+    return out
+
+
+def replay_case(case):
+    e = case.get("e2") or {}
+    if "seqkind" in e:
+        from . import c12_seq
+        return c12_seq.replay(e["seqkind"], e["xs"], e["ys"])
+    return None
